@@ -221,7 +221,8 @@ Proof. exact early_timeout_stream. Qed.
    requests of page i+1 start at the node that answered page i; RetrySameTarget and a transparent
    re-prepare stay on the node; RetryNextTarget and a connection that cannot be acquired move to
    a node not used before in this page; the plan running out ends the page's requests.
-   [coord_ok] is the relation the tie evaluates on the node of every request seen by the mock. *)
+   [coord_ok] is the relation the tie evaluates on the nodes of the requests seen by the mock
+   (Session modes; of a drop case's last observed page only the first request). *)
 Theorem C07_coordinator_stability : forall script, Forall plan_fine script ->
   coord_ok None script (seq_targets script) = true.
 Proof. exact (fun script => coord_thm script None). Qed.
@@ -250,17 +251,19 @@ Theorem C07_single_page_targets : forall ps, plan_fine ps ->
   follows (ps_faults ps) None [] (fst (fetch_one MSession None ps)) = true.
 Proof. exact single_targets. Qed.
 
-(* the acceptor of the single-page cases: accepted => the property sentence for a resumed page
-   (every request carries the caller's state), the model's result and number of attempts, and
-   nodes that obey the plan rules; the model's own run is accepted *)
-Theorem C07_accept_single_sound : forall st ps obs ok nodes_,
+(* the acceptor of the single-page cases, unfolded: [accept_single] IS the conjunction of three
+   tests (result = model's, keys = model's, nodes obey the plan rules); since the model's keys
+   are by definition the caller's state repeated, acceptance implies [prop_single_ok].  These two
+   statements decompose the acceptor's definition; they carry no content beyond it.  The content
+   for kind P is the predicate [prop_single_ok] evaluated on the implementation's own requests. *)
+Theorem C07_accept_single_unfolds : forall st ps obs ok nodes_,
   accept_single st ps obs ok nodes_ = true ->
   prop_single_ok st ok = true /\ obs = single_result (snd (single_run st ps)) /\
   List.length ok = List.length (fst (fetch_one MSession None ps)) /\
   follows (ps_faults ps) None [] nodes_ = true.
 Proof. exact accept_single_sound. Qed.
 
-Theorem C07_accept_single_complete : forall st ps, plan_fine ps ->
+Theorem C07_accept_single_accepts_model : forall st ps, plan_fine ps ->
   accept_single st ps (single_result (snd (single_run st ps))) (fst (single_run st ps))
                 (fst (fetch_one MSession None ps)) = true.
 Proof. exact accept_single_complete. Qed.
@@ -548,7 +551,7 @@ Print Assumptions C07_coordinator_stability.
 Print Assumptions C07_seq_targets_are_requests.
 Print Assumptions C07_single_page_outcome.
 Print Assumptions C07_single_page_targets.
-Print Assumptions C07_accept_single_sound.
-Print Assumptions C07_accept_single_complete.
+Print Assumptions C07_accept_single_unfolds.
+Print Assumptions C07_accept_single_accepts_model.
 Print Assumptions C07_drop_timeout_sound.
 Print Assumptions C07_page_outcome_closed_form.
